@@ -537,6 +537,8 @@ def run_max_freq(case, ob, site):
     L = SymFloat(Lv)
     ta.timing_map = {w: L for w in ta.timing_map}
     pre = [z3.fpGEQ(Lv, z3.FPVal(0.0, F64)), z3.fpLEQ(Lv, z3.FPVal(1e9, F64))]
+    if case['ff'] == 0:
+        pre.append(z3.fpGT(Lv, z3.FPVal(0.0, F64)))     # (a zero clock period has no frequency: ZeroDivisionError on real floats)
     with stubs(analysis, max=lambda xs: list(xs)[0]):
         got = ta.max_freq(tech_in_nm=case['tech'], ffoverhead=case['ff']) if case['ff'] is not None else ta.max_freq(tech_in_nm=case['tech'])
     scale = z3.FPVal(case['tech'] / 130.0, F64)      # Dennard scaling: delays shrink with the feature size
@@ -559,6 +561,8 @@ def run_max_freq(case, ob, site):
         # ground instances first: a wrong formula is refuted by constant folding in milliseconds, whereas the solver may
         # need minutes to find a floating-point witness on its own; the general query follows only if these hold
         for L0 in (0.0, 1.0, 100.0, 1234.5):
+            if L0 == 0.0 and case['ff'] == 0:
+                continue
             if ob.prove('%s at max_length=%s' % (name, L0), (got.t == exp), pre + [z3.fpEQ(Lv, z3.FPVal(L0, F64))], None,
                         site=site, extract=ext) == 'sat':
                 ob.paths += 1
